@@ -1,5 +1,6 @@
 import BppModel.Proto
 import BppModel.Rand
+import BppModel.RandGen
 /-
 Driver for C18 (random draws).  Stateless: every operation carries its inputs; the
 implementation's answer carries, after its last `;`, the primitive draws the library made
@@ -511,6 +512,14 @@ def step (_ : St) (op : List String) (impl : Option (List String)) : St × Strin
       ((), "stat", if chi2Ok counts (hyperProbs r0 r1 c0 (min r0 c0)) then "ok" else "FAIL:chi2_rcont2")
     | _, _, _, _ => ((), "stat", "FAIL:chi2_rcont2")
   | ["repro", _] => ((), "1 1 1", if it == ["1", "1", "1"] then "ok" else "FAIL:reproducible")
+  | ["repro1", routine, _, _, _] =>
+    -- two histories that differ before `setSeed(seed)`: the observations after it and the final generator
+    -- state must agree (`reproducible`); the clause names the routine that keeps state of its own
+    match splitTok ";" it with
+    | [a, b, [same]] =>
+      ((), join [" ".intercalate a, " ".intercalate a, "1"],
+        if RandGen.reproObserved a b (same == "1") then "ok" else "FAIL:reproducible_" ++ routine)
+    | _ => ((), "parse", "FAIL:reproducible_" ++ routine)
   | _ => bad
 
 def machine : Machine St := { init := fun _ => (), step := step }
